@@ -613,6 +613,12 @@ def gen_cases(rng, tier):
             for b in range(256):
                 for c in ALPHA_THOROUGH:
                     cases.append("raw %02x%02x%02x" % (a, b, c))
+    # 2b. oversized raw areas: every length 41..600 and lengths around 2^16 (the length is narrowed to u8 /
+    #     compared with 40 somewhere on every path: wrap-arounds of len mod 256 must still be rejected)
+    for n in list(range(41, 601)) + [1023, 1024, 1025, 65535, 65536, 65537, 65576, 65792]:
+        cases.append("raw " + hx(_nonzero(rng, n)))
+        if n < 300 or n % 256 in (0, 1, 40, 41, 255):
+            cases.append("hraw " + hx(_nonzero(rng, n)))
     # 3. every prefix and every single-byte corruption of a few full areas
     fulls = [
         bytes.fromhex("020405b4010303070402080a0000000100000002") + bytes.fromhex("0512") + b"\x11" * 16 + b"\x01\x00",
